@@ -275,14 +275,14 @@ Proof.
       rewrite exec_power. cbv zeta.
       match goal with |- context [do_wait ?x] => change x with ss5 end.
       rewrite (wait_none ss5 names) by (repeat split; assumption). cbn [sbind].
-      rewrite exec_ops_list, exec_oplist_cons, exec_operand_target. unfold target_cmd, do_power_light. cbn [as_name].
+      rewrite exec_ops_list, exec_oplist_cons, exec_operand_target. unfold target_cmd, target_cmdv, do_power_light. cbn [as_name].
       change (s_world ss5) with (s_world ss). rewrite Efind. change (s_regs ss5) with r5. rewrite Hdur, Hpow. cbn [bind dev_step sbind].
       rewrite exec_oplist_nil. reflexivity. }
     rewrite Epow. cbn [sbind].
     rewrite exec_seq_cons, exec_set.
     assert (HinvP : snap_inv names ssP) by (unfold ssP, s_emit, snap_inv; cbn [s_regs s_locals s_world]; repeat split; assumption).
     rewrite (wait_none ssP names HinvP). cbn [sbind].
-    rewrite exec_ops_list, exec_oplist_cons, exec_operand_target. unfold target_cmd, do_color_light. cbn [as_name].
+    rewrite exec_ops_list, exec_oplist_cons, exec_operand_target. unfold target_cmd, target_cmdv, do_color_light. cbn [as_name].
     change (s_world ssP) with (s_world ss). rewrite Efind. change (s_regs ssP) with r5.
     unfold do_color_names. rewrite Hcol, Hdur. cbn [bind color_each]. rewrite Efind. cbn [dev_step sbind d_regs d_world d_events].
     rewrite exec_oplist_nil. cbn [sbind]. reflexivity.
